@@ -62,19 +62,23 @@ type fault struct {
 }
 
 type op struct {
-	K      string // put labels remove up bury check weight clean heartbeat region setenv routes
-	Grpc   bool
-	P      payload
-	ID     uint64
-	Labels []lab
-	Force  bool
-	PD     bool
-	LW, RW int64
-	Order  []uint64 // clean, check: map iteration order, filled in from the run's storage write log
-	R      uint64
-	Stores []uint64
-	Roles  []int // region: peer roles parallel to Stores (0 voter, 1 learner, 2 incoming voter, 3 demoting voter); nil = all voters
-	F      fault
+	K    string // put labels remove up bury check weight clean heartbeat region setenv routes
+	Grpc bool
+	// remove: the write of the schedule configuration (key `config`: the store's remove-peer limit) that follows the write of the
+	// store record inside RemoveStore fails. The model has no such fault: the store's state has changed, RemoveStore is successful.
+	CfgFault bool
+	API      bool // remove, up: through the HTTP API (DELETE /store/{id}[?force], POST /store/{id}/state?state=Up|Offline)
+	P        payload
+	ID       uint64
+	Labels   []lab
+	Force    bool
+	PD       bool
+	LW, RW   int64
+	Order    []uint64 // clean, check: map iteration order, filled in from the run's storage write log
+	R        uint64
+	Stores   []uint64
+	Roles    []int // region: peer roles parallel to Stores (0 voter, 1 learner, 2 incoming voter, 3 demoting voter); nil = all voters
+	F        fault
 	// setenv: the replication settings the store operations look at
 	Loc    []string
 	Strict bool
@@ -202,7 +206,13 @@ type world struct {
 	api                              http.Handler
 }
 
+// cfgGroupOn: count (and possibly fail) writes of the key `config` as group "config"; only while an operation with CfgFault runs
+var cfgGroupOn bool
+
 func storeGroup(key string) (string, bool) {
+	if cfgGroupOn && (key == "config" || strings.HasSuffix(key, "/config")) {
+		return "config", true
+	}
 	if i := strings.Index(key, "raft/s/"); i >= 0 {
 		id, err := strconv.ParseUint(strings.TrimLeft(key[i+len("raft/s/"):], "0"), 10, 64)
 		if err != nil {
@@ -477,9 +487,17 @@ func (w *world) exec(o *op) string {
 	if o.F.On {
 		plan[kvx14.PlanKey(strconv.FormatUint(o.F.SID, 10), o.F.Idx)] = []kvx14.Kind{kvx14.FailBefore, kvx14.FailAfter}[o.F.Kind]
 	}
+	if o.CfgFault {
+		cfgGroupOn = true
+		plan[kvx14.PlanKey("config", 0)] = kvx14.FailBefore
+	}
 	w.kb.Arm(plan)
 	r := w.call(o, true)
 	w.kb.Arm(nil)
+	if o.CfgFault {
+		cfgGroupOn = false
+		w.R.Count("remove:fault-armed-on-the-config-write-that-follows-the-store-record")
+	}
 	return w.snapshot(r)
 }
 
@@ -515,9 +533,24 @@ func (w *world) call(o *op, fillOrder bool) string {
 	case "labels":
 		r = w.errRes(w.rc.UpdateStoreLabels(o.ID, mkLabels(o.Labels), o.Force))
 	case "remove":
-		r = w.errRes(w.rc.RemoveStore(o.ID, o.PD))
+		if o.API {
+			switch {
+			case o.PD:
+				r = w.apiCall("DELETE", fmt.Sprintf("/store/%d?force", o.ID))
+			case o.ID%2 == 0:
+				r = w.apiCall("POST", fmt.Sprintf("/store/%d/state?state=Offline", o.ID))
+			default:
+				r = w.apiCall("DELETE", fmt.Sprintf("/store/%d", o.ID))
+			}
+		} else {
+			r = w.errRes(w.rc.RemoveStore(o.ID, o.PD))
+		}
 	case "up":
-		r = w.errRes(w.rc.UpStore(o.ID))
+		if o.API {
+			r = w.apiCall("POST", fmt.Sprintf("/store/%d/state?state=Up", o.ID))
+		} else {
+			r = w.errRes(w.rc.UpStore(o.ID))
+		}
 	case "bury":
 		r = w.errRes(w.rc.VerifC14BuryStore(o.ID))
 	case "check":
@@ -1179,6 +1212,57 @@ func containsID(xs []uint64, x uint64) bool {
 	return false
 }
 
+// apiCall sends one request to the real HTTP API of the server and classifies the answer like errRes does for an error value.
+func (w *world) apiCall(method, route string) string {
+	if w.api == nil {
+		h, _, err := api.NewHandler(context.Background(), w.s)
+		if err != nil {
+			panic(err)
+		}
+		w.api = h
+	}
+	rw := httptest.NewRecorder()
+	w.api.ServeHTTP(rw, httptest.NewRequest(method, "/pd/api/v1"+route, nil))
+	m := rw.Body.String()
+	w.R.Count(fmt.Sprintf("api:%s-answered-%d", method, rw.Code))
+	switch {
+	case rw.Code == http.StatusOK:
+		return "ROk"
+	case rw.Code == http.StatusNotFound:
+		return "RNotFound"
+	case rw.Code == http.StatusGone:
+		return "RTombstone"
+	case strings.Contains(m, "injected storage fault"):
+		return "RStorage"
+	case strings.Contains(m, "has been physically destroyed"):
+		return "RDestroyed"
+	case strings.Contains(m, "has been removed"):
+		return "RTombstone"
+	case strings.Contains(m, "not found"):
+		return "RNotFound"
+	}
+	w.notes["unclassified API answer: "+strconv.Itoa(rw.Code)+" "+m] = true
+	return "RBad"
+}
+
+// apiCases: request histories on the HTTP layer: the same store is removed twice (plain, then declared physically destroyed while it is
+// still offline; and the other way round), brought up in between, removed again after it came up; a replacement registers at its address.
+func apiCases() []caseIn {
+	boot := payload{ID: 1, Addr: "a1", Ver: "4.0.0"}
+	put := func(id uint64, addr string) op { return op{K: "put", P: payload{ID: id, Addr: addr, Ver: "4.0.0"}} }
+	rm := func(id uint64, pd bool) op { return op{K: "remove", ID: id, PD: pd, API: true} }
+	up := func(id uint64) op { return op{K: "up", ID: id, API: true} }
+	var out []caseIn
+	for _, id := range []uint64{2, 3} { // even: POST state=Offline, odd: DELETE
+		x := fmt.Sprintf("x%d", id)
+		out = append(out,
+			caseIn{CV: "0.0.0", Boot: boot, Ops: []op{put(id, x), rm(id, false), rm(id, true), up(id), put(id+2, x), rm(id, false), {K: "check"}, up(id), rm(id, true)}},
+			caseIn{CV: "0.0.0", Boot: boot, Ops: []op{put(id, x), rm(id, true), rm(id, false), up(id), put(id+2, x), {K: "heartbeat", ID: id}}},
+			caseIn{CV: "0.0.0", Boot: boot, Ops: []op{put(id, x), up(id), rm(id, false), up(id), up(id), rm(id, false), rm(id, false), put(id+2, x), rm(id, true), put(id+2, x), up(9), rm(9, true)}})
+	}
+	return out
+}
+
 // the per-store routes the operations of the model stand for (server/api/router.go)
 var modelledStoreRoutes = map[string]bool{
 	"DELETE /store/{id}": true, "POST /store/{id}/state": true, "POST /store/{id}/label": true,
@@ -1521,10 +1605,12 @@ func gen(r *rng.R, sh *shadow, malformed bool) op {
 		return op{K: "labels", ID: id, Labels: genLabels(r), Force: r.Pct(30), F: genFault(r, id, 1, fp+6)}
 	case 2:
 		id := pickID(r, sh, func(id uint64) bool { return sh.state[id] != 2 })
-		return op{K: "remove", ID: id, PD: r.Pct(25), F: genFault(r, id, 1, fp)}
+		o := op{K: "remove", ID: id, PD: r.Pct(25), API: r.Pct(35), F: genFault(r, id, 1, fp)}
+		o.CfgFault = !o.F.On && r.Pct(20)
+		return o
 	case 3:
 		id := pickID(r, sh, func(id uint64) bool { return sh.state[id] == 1 })
-		return op{K: "up", ID: id, F: genFault(r, id, 1, fp)}
+		return op{K: "up", ID: id, API: r.Pct(35), F: genFault(r, id, 1, fp)}
 	case 4:
 		id := pickID(r, sh, func(id uint64) bool { return sh.state[id] != 2 })
 		return op{K: "bury", ID: id, F: genFault(r, id, 1, fp)}
@@ -1664,6 +1750,7 @@ func main() {
 	if *replay == "" {
 		fixed = append(fixed, addressReuseCases()...)
 		fixed = append(fixed, jointStateCases()...)
+		fixed = append(fixed, apiCases()...)
 	}
 	var all []caseRec
 	emit := func(c caseRec) {
